@@ -59,6 +59,12 @@ pub fn pubrel_in(pid: u16) -> SPacket {
 
 /// conformant acknowledgements for every open handshake: (success, optionally one failing reason)
 pub fn broker_acks(sys: &Sys, with_fail: bool, tagged: bool) -> Vec<Ev> {
+    broker_acks_ext(sys, with_fail, tagged, false)
+}
+
+/// `with_nomatch`: also the success reason that is not zero (0x10 No matching subscribers) for
+/// PUBACK / PUBREC - a success must not be treated like a failure, nor like "finished"
+pub fn broker_acks_ext(sys: &Sys, with_fail: bool, tagged: bool, with_nomatch: bool) -> Vec<Ev> {
     let mut evs = vec![];
     for i in 0..sys.m.ops.len() {
         let tag = if tagged { format!("r{}", i) } else { String::new() };
@@ -70,6 +76,12 @@ pub fn broker_acks(sys: &Sys, with_fail: bool, tagged: bool) -> Vec<Ev> {
                     _ => 0x80,
                 };
                 evs.push(Ev::Deliver(sys.ack_for(i, fail, &tag).unwrap()));
+            }
+            if with_nomatch
+                && matches!(sys.m.ops[i].spec, OpSpec::Publish(_))
+                && matches!(sys.m.ops[i].st, St::AwaitAck | St::AwaitRec)
+            {
+                evs.push(Ev::Deliver(sys.ack_for(i, 0x10, &tag).unwrap()));
             }
         }
     }
